@@ -33,7 +33,7 @@ MECHANISMS = ["jaxley.channels.hh:HH.m_gate", "jaxley.channels.hh:HH.h_gate", "j
 MECHANISMS_REQUIRED = ["jaxley.channels.hh:HH.m_gate", "jaxley.channels.pospischil:CaT.u_gate",
                        "jaxley.channels.channel:Channel.change_name"]
 REQUIRED = {"quick": {"rates": 5000, "currents": 2000, "defaults": 10, "rename": 100},
-            "thorough": {"rates": 25000, "currents": 10000, "defaults": 25, "rename": 500}}
+            "thorough": {"rates": 275338, "currents": 57600, "defaults": 14, "rename": 1282}}
 
 PREFIXES = ["a", "g", "e", "HH", "Na", "K", "Km", "vt", "eNa", "gNa", "x_y", "Leak", "CaT_vx", "i", "m", "_", "HH_gNa", "s"]
 
